@@ -210,7 +210,30 @@ def strategy(tier):
     return _cases(tier)
 
 
+def extra_phase(tier, seed):
+    """Exhaustive lattice of short quoted strings (semicolons, commas, quotes, escapes inside) under .cstr/.asciiz/.byte,
+    alone and followed by every short comment text: bvf/quotelattice.strings."""
+    from .. import quotelattice as Q
+    jobs = Q.strings(tier)
+    runs, bad = Q.survey(jobs)
+    findings = [('C11/wrong-bytes/quoted-string-lattice', {'kind': 'lattice', 'line': j['line'], 'bytes': j['bytes']}, d) for j, d in bad]
+    return {'evals': len(jobs), 'cases': len(jobs), 'findings': findings, 'nt': {'lattice:' + j['line'] for j in jobs[:2000]},
+            'report': {'quoted_string_lattice': {'lines_enumerated': len(jobs), 'assembler_runs': runs, 'exhaustive': True,
+                                                 'elements': 'a ; , blank other-quote \\\\ \\quote \\n', 'max_elements': 3 if tier == 'thorough' else 2,
+                                                 'max_comment_length': 2 if tier == 'thorough' else 1}},
+            'samples': [{'lattice_line': j['line'], 'expected_bytes': bytes(j['bytes']).hex()} for j in jobs[100:102]]}
+
+
 def execute(case, ctx):
+    if case.get('kind') == 'lattice':
+        from .. import quotelattice as Q
+        got, r = Q.assemble([case['line']])
+        fs = []
+        if got != bytes(case['bytes']):
+            fs.append(Finding('C11/wrong-bytes/quoted-string-lattice',
+                              {'line': case['line'], 'expected': bytes(case['bytes']).hex(),
+                               'got': got.hex() if got is not None else r.klass, 'run': r.brief()}))
+        return Outcome(fs, True, ['lattice-replay'], 1)
     try:
         cfg, isa, fname, files, verdict, lay = run_layout_case(ID, case)
         if verdict != 'accepted':
